@@ -1125,11 +1125,15 @@ func (multiEngine) Gen(t *rapid.T, tier string) interface{} {
 	for i := 0; i < ns; i++ {
 		c.Scripts = append(c.Scripts, genMultiProg(t, 0).Src)
 	}
-	nt := rapid.IntRange(2, 5).Draw(t, "ntasks")
+	maxTasksGen, maxProgs := 5, 3
+	if tier == "thorough" {
+		maxTasksGen, maxProgs = 7, 5
+	}
+	nt := rapid.IntRange(2, maxTasksGen).Draw(t, "ntasks")
 	origins := []string{"copy", "fresh", "copycopy", "livefresh"}
 	for i := 0; i < nt; i++ {
 		tk := MTask{Origin: origins[rapid.IntRange(0, 3).Draw(t, "origin")]}
-		np := rapid.IntRange(1, 3).Draw(t, "nprogs")
+		np := rapid.IntRange(1, maxProgs).Draw(t, "nprogs")
 		for j := 0; j < np; j++ {
 			switch rapid.IntRange(0, 5).Draw(t, "route") {
 			case 0, 1:
